@@ -16,6 +16,33 @@ CHECKS = {
  "C04": ("E-TOK", "bounded-exhaustive exploration of operator/operand sequences against a reference tree evaluation",
          "All operator/operand token sequences up to the depth bound (every pair, triple and quadruple of adjacent operators); value compared with the reference evaluation of the independently derived tree.",
          "operands are small primes so groupings differ in value; same arithmetic primitives on both sides", "§5 C04"),
+"C05": ("E-TREE", "bounded-exhaustive enumeration of expression trees (depth<=2/3) over a boundary-value pool, bit-exact reference evaluation",
+         "All trees of depth <= 2 (thorough: 3 over a sub-pool) over + - * / % ^ unary minus, abs floor ceil trunc round sqrt and the constants, with leaves from a 40-value boundary pool (subnormals, 2^53 neighbours, MAX, +-0, +-inf, NaN), each rendered through the public syntax, evaluated by eval_f64 and compared bit for bit.",
+         "reference uses the std/libm primitive of the same name in the same process", "§5 C05"),
+ "C06": ("E-TREE", "bounded-exhaustive enumeration of integer expression trees over a boundary pool against exact i128 arithmetic, both arithmetic profiles",
+         "All trees of depth <= 2 (thorough: 3) over every i64 operator and abs sgn mod pow ! with leaves from the i64 boundary pool; result must be the exact integer or Err, under release and overflow-checked builds.",
+         "x<<y that does not fit, MIN/-1 and exponents outside 0..2^32-1 carry no demand", "§5 C06"),
+ "C07": ("E-TREE", "bounded-exhaustive enumeration of decimal expression trees against exact rational arithmetic on big integers",
+         "All trees of depth <= 2 (thorough: 3) over + - * / % and unary minus with literals of varied scale and magnitude (27/28/29-digit boundaries, MAX, 10^-28); oracle is exact BigRational arithmetic.",
+         "results between MAX and MAX+1 and non-representable sums/products carry no demand", "§5 C07"),
+ "C08": ("E-TREE + E-TOK", "bounded-exhaustive enumeration of complex expression trees against independent principal-branch definitions; real operands against eval_f64",
+         "Every operator and function at depth 1 over 16 generic complex operands plus real and imaginary literals, depth 2 for the exact operations, judged by own pair arithmetic and exp/ln/atan2 definitions; every operator/function on real operands compared with eval_f64; token exploration for the lexical part.",
+         "operands are kept off branch cuts; tolerance checks are depth 1", "§5 C08"),
+ "C09": ("E-TREE", "bounded-exhaustive enumeration of mixed Integer/Float expression trees against a typed reference evaluator",
+         "All trees of depth <= 2 (thorough: 3) over + - * / % ^ unary minus abs sgn ! floor ceil round trunc with a typed pool (i64 extremes, 2^53 neighbours, halves, negative fractions); Integer-only steps checked for variant and value, Float steps for numeric value.",
+         "the variant of results of Float steps is not specified and not compared", "§5 C09"),
+ "C10": ("E-FUNC", "complete enumeration of the finite (evaluator, name/alias) vocabulary over a fixed argument grid",
+         "Every function name, alias, constant and postfix operator of every evaluator applied to every point of a fixed grid (k/8, +-10^k, domain edges, quarter steps for x!), judged against libm / tgamma / the Lambert identity / exact rules.",
+         "the elementary-function oracle is the host libm (checks the name->function mapping, argument order, constants); ilog/aggregates/gcd/lcm excluded as in the statement", "§5 C10"),
+ "C11": ("E-AGG", "exhaustive enumeration of argument lists (all sequences = all permutations of all multisets) over small value pools",
+         "Every argument list of length 1..4 over 6 values, 5 over 4 values, 5..8 over 3 values for min max avg med median (gcd lcm in i64), empty lists, a failing argument at every position.",
+         "pool values exactly representable so sums are order independent", "§5 C11"),
+ "C18": ("E-BITS", "complete enumeration of a finite partition of the 2^64 double patterns (sign x exponent x lowest set mantissa bit) with representatives",
+         "Number::from(f64) is checked on 3 representatives of each of the 2*2048*53 classes on which its decision is constant, on the boundary doubles, and (thorough) on all 2^32 f32-embedded doubles; Number::from(i64) on every power of two +-1.",
+         "soundness of the partition: finiteness, integrality and range membership depend only on sign, exponent and lowest set mantissa bit", "§5 C18"),
+ "C19": ("E-LIT + E-TREE", "exhaustive enumeration of short literal strings and structured literal families against an exact big-integer rounding oracle; print/re-read on every explored result",
+         "Every literal over {0 1 5 9 .} up to 6 (thorough 8) characters and the literal-shape families up to 400 digits, for every evaluator; every finite Ok result of the depth<=2 tree explorations printed and fed back.",
+         "Display forms are those of std / rust_decimal / num_complex", "§5 C19"),
 }
 ALL = ["C%02d" % i for i in range(1, 21)]
 checks = []
